@@ -165,6 +165,51 @@ pub struct ChannelOutcome {
     pub file_io: (usize, usize, usize),
 }
 
+/// Compact JSON text of `v` in which the object at `target` lists member `key` twice: once with its own
+/// value, once with `alt`.
+fn write_with_dup(v: &Value, ptr: &str, target: &str, key: &str, alt: &Value, alt_first: bool, out: &mut String) {
+    match v {
+        Value::Object(m) => {
+            out.push('{');
+            let mut first = true;
+            for (k, x) in m {
+                if !first {
+                    out.push(',');
+                }
+                first = false;
+                let esc = k.replace('~', "~0").replace('/', "~1");
+                let child = format!("{ptr}/{esc}");
+                let kq = serde_json::to_string(k).unwrap();
+                if ptr == target && k == key {
+                    if alt_first {
+                        out.push_str(&format!("{kq}:{},", serde_json::to_string(alt).unwrap()));
+                    }
+                    out.push_str(&format!("{kq}:"));
+                    write_with_dup(x, &child, target, key, alt, alt_first, out);
+                    if !alt_first {
+                        out.push_str(&format!(",{kq}:{}", serde_json::to_string(alt).unwrap()));
+                    }
+                } else {
+                    out.push_str(&format!("{kq}:"));
+                    write_with_dup(x, &child, target, key, alt, alt_first, out);
+                }
+            }
+            out.push('}');
+        }
+        Value::Array(a) => {
+            out.push('[');
+            for (i, x) in a.iter().enumerate() {
+                if i > 0 {
+                    out.push(',');
+                }
+                write_with_dup(x, &format!("{ptr}/{i}"), target, key, alt, alt_first, out);
+            }
+            out.push(']');
+        }
+        other => out.push_str(&serde_json::to_string(other).unwrap()),
+    }
+}
+
 type Extra<T> = (&'static str, fn(&[u8]) -> Result<T, String>);
 
 /// Ordinary documents decoded through the library's own entry points (results ignored): 1 = a link, then
@@ -225,7 +270,10 @@ fn decode_all_ext<T: DeserializeOwned + PartialEq + Send + 'static>(t: &ChannelT
                 for (name, f) in &extras {
                     push(name, sp, f(text.as_bytes()), false, &mut results, &mut values);
                 }
-                // JSON tree
+                // JSON tree (a document that repeats a member name cannot be handed over as a tree: the tree
+                // holds one of the two, it is another document)
+                if t2.labels.iter().any(|l| l == "DUP-MEMBER") {
+                } else {
                 match serde_json::from_str::<Value>(text) {
                     Ok(tree) => {
                         push("serde_json::from_value", sp, serde_json::from_value::<T>(tree.clone()).map_err(|e| e.to_string()), false, &mut results, &mut values);
@@ -235,6 +283,7 @@ fn decode_all_ext<T: DeserializeOwned + PartialEq + Send + 'static>(t: &ChannelT
                     Err(e) => {
                         push("serde_json::from_value", sp, Err(e.to_string()), false, &mut results, &mut values);
                     }
+                }
                 }
                 // streaming readers
                 {
@@ -342,7 +391,9 @@ pub fn run_channel(t: &ChannelTrace, scratch: &Scratch) -> ChannelOutcome {
     use std::os::unix::fs::MetadataExt;
     let mut texts: Vec<(&'static str, String)> = vec![("as-written", t.text.clone())];
     let mut respelled = false;
-    if let Some(rs) = respell(&t.text, t.ws, t.escape_seed, t.order_seed) {
+    // (a document with a repeated member name has no re-spelling: a JSON tree cannot hold it)
+    let dup_member = t.labels.iter().any(|l| l == "DUP-MEMBER");
+    if let Some(rs) = if dup_member { None } else { respell(&t.text, t.ws, t.escape_seed, t.order_seed) } {
         if rs != t.text {
             texts.push(("re-spelled", rs));
             respelled = true;
@@ -803,15 +854,47 @@ pub fn run_c17(tier: Tier, seed: u64, index: u64, scratch: &Scratch, rec: &mut R
             }
         }
     }
-    let text = if r.chance(1, 2) { serde_json::to_string(&doc).unwrap() } else { serde_json::to_string_pretty(&doc).unwrap() };
+    let mut text = if r.chance(1, 2) { serde_json::to_string(&doc).unwrap() } else { serde_json::to_string_pretty(&doc).unwrap() };
+    // one document in twelve repeats a member name inside one of its objects (what a JSON tree cannot hold:
+    // the tree keeps one of the two, the typed text parsers see both)
+    let mut dup_member = false;
+    if kind != "statement" && kind != "predicate" && r.chance(1, 12) {
+        let mut objs: Vec<String> = vec![String::new()];
+        let mut cs = vec![];
+        gen::containers(&doc, "", &mut cs);
+        for p in cs {
+            if doc.pointer(&p).map(|v| v.is_object()).unwrap_or(false) {
+                objs.push(p);
+            }
+        }
+        let target = r.pick(&objs).clone();
+        if let Some(Value::Object(m)) = doc.pointer(&target) {
+            if !m.is_empty() {
+                let key = m.keys().nth(r.idx(m.len())).unwrap().clone();
+                let old = m[&key].clone();
+                let alt = match r.below(3) {
+                    0 => old.clone(),
+                    1 => gen::mutate_leaf(&mut r, &old),
+                    _ => Value::Null,
+                };
+                let alt_first = r.chance(1, 2);
+                let mut out = String::new();
+                write_with_dup(&doc, "", &target, &key, &alt, alt_first, &mut out);
+                text = out;
+                dup_member = true;
+                labels.push("DUP-MEMBER".into());
+                linkdir = None;
+            }
+        }
+    }
     let n_spell = if tier == Tier::Quick { 2 } else { 4 };
     for _ in 0..n_spell {
         let t = ChannelTrace {
             kind: kind.clone(),
             text: text.clone(),
-            ws: r.below(4) as u8,
-            escape_seed: if r.chance(1, 2) { Some(r.next()) } else { None },
-            order_seed: if r.chance(1, 2) { Some(r.next()) } else { None },
+            ws: if dup_member { 0 } else { r.below(4) as u8 },
+            escape_seed: if !dup_member && r.chance(1, 2) { Some(r.next()) } else { None },
+            order_seed: if !dup_member && r.chance(1, 2) { Some(r.next()) } else { None },
             io_seed: r.next(),
             chunked: r.chance(3, 4),
             eintr_pct: *r.pick(&[0u64, 0, 10, 40]),
